@@ -87,6 +87,11 @@ def workflows():
         {'stage0.G': m(), 'stage1.G': m(1), 'stage1.Obs': m(1, ['stage0.G', 'stage1.G'], repeat=True)})
     add('xobs-samename-rev', [comp('G'), comp('G', stage=1), obs('Obs', ['stage0.G:ref', 'stage1.G:ref'], stage=1)],
         {'stage0.G': m(), 'stage1.G': m(1), 'stage1.Obs': m(1, ['stage0.G', 'stage1.G'], repeat=True)})
+    # a plain consumer of two producers with the same name, one in an earlier stage and one in its own stage
+    add('samename-consumer', [comp('G'), comp('G', stage=1), comp('C', ['stage0.G:ref', 'stage1.G:ref'], stage=1)],
+        {'stage0.G': m(), 'stage1.G': m(1), 'stage1.C': m(1, ['stage0.G', 'stage1.G'])})
+    add('samename-consumer-rev', [comp('G'), comp('G', stage=1), comp('C', ['stage1.G:ref', 'stage0.G:ref'], stage=1)],
+        {'stage0.G': m(), 'stage1.G': m(1), 'stage1.C': m(1, ['stage0.G', 'stage1.G'])})
     add('xreplica-agg', [comp('S', wa={'replicate': 2}), comp('Agg', ['stage0.S:ref'], stage=1, wa={'aggregate': True}),
                          comp('T', ['Agg:ref'], stage=1)],
         {'stage0.S0': m(replica_of='S'), 'stage0.S1': m(replica_of='S'),
@@ -558,12 +563,17 @@ def run_one(col, which, scn, prefix, remaining, boundary_only=False):
     h.install()
     h.H.on_launch = snapshot_for_launch
     EXTRA_PREDECESSORS.clear()
+    # the producers of the reference model count as predecessors whatever the product's own graph says (a dependency edge
+    # that the product dropped must not hide the missing wait)
+    for n, mm in meta.items():
+        if mm['producers']:
+            EXTRA_PREDECESSORS[n] = list(mm['producers'])
     loop_nodes = DOWHILE_EXTRAS.get(scn['wf'], {}).get('loop')
     if loop_nodes:
         # a consumer of a looped component must wait for the whole loop: every iteration the script will instantiate
         for n, mm in meta.items():
             if n not in loop_nodes and any(p in loop_nodes for p in mm['producers']):
-                EXTRA_PREDECESSORS[n] = [p for p in mm['producers'] if p in loop_nodes]
+                EXTRA_PREDECESSORS[n] = sorted(set(EXTRA_PREDECESSORS.get(n, [])) | set(p for p in mm['producers'] if p in loop_nodes))
     # ComponentState.run snapshots
     x = h.execute(hs, prefix, trace=scn.get('trace'), pause=scn.get('pause'), stalls=scn.get('stalls'))
     col.evaluated()
